@@ -20,7 +20,7 @@ LEVEL = "exploration"
 SHARDS = {"quick": 4, "thorough": 16}
 TIMEOUT = {"quick": 600, "thorough": 3000}
 RULE = (
-    "generated (prose, value, declared type) triples, type consistent with value, over every value kind (int pos/zero/"
+    "the removal helpers (parameter and return entry, emit_default_prop on/off) must agree with the codec; generated (prose, value, declared type) triples, type consistent with value, over every value kind (int pos/zero/"
     "neg/large, float pos/neg/exp/integral, bool, None, str plain/space/path and in thorough dot/empty/quote, "
     "back-tick code list/tuple/dict/call/dotted-call/arith) x prose classes (plain, number, paren, back-tick, full "
     "stop, comma, the word 'default', ...) x rendering {set_default_doc, harness renderer with each of the four "
